@@ -16,11 +16,16 @@ FRACS = [-0.5, -0.49, 0.0, 0.49, 0.5]
 F32MAX = float(np.finfo(np.float32).max)
 
 
-def lattice():
+GRID_T = sorted(set(GRID + [v * sg for v in (1e-6, 0.5, 3.0, 1000.0, 65504.0,
+                                              1e10, 1e20) for sg in (1, -1)]))
+
+
+def lattice(tier='quick'):
   pts = []
+  grid = GRID if tier == 'quick' else GRID_T
   for bits in (4, 8, 16):
     for sym in (True, False):
-      for mn, mx in itertools.combinations_with_replacement(GRID, 2):
+      for mn, mx in itertools.combinations_with_replacement(grid, 2):
         pts.append({'bits': bits, 'sym': sym, 'min': mn, 'max': mx})
   return pts
 
@@ -33,7 +38,7 @@ def shapes():
 
 
 def cases(tier):
-  pts = lattice()
+  pts = lattice(tier)
   for i in range(0, len(pts), 6):
     yield {'what': 'range', 'pts': pts[i:i + 6]}
   shp = [s for s in shapes()]
